@@ -288,6 +288,11 @@ def run(prop, seed, budget, ctx):
             evaluations += 1
             res = graphql.graphql_sync(sch, q)
             if res.errors or res.data != want: fail("execution-differs-from-serialize", info=info, query=q, errors=[str(e) for e in res.errors or []][:2], data=res.data, expected=want)
+    import corners8
+    c8f_, c8n_, c8d_, c8h_ = corners8.run_part("C19", seed, budget)
+    failures += c8f_; distinct |= c8d_; evaluations += c8n_
+    for k_, v_ in c8h_.items(): hist[k_] += v_
+    for f in c8f_: hist["P:" + f["why"][0].split(":")[0]] += 1
     import corners7
     cf_, cn_, cd_, ch_ = corners7.run_part("C19", seed, budget)
     failures += cf_; distinct |= cd_; evaluations += cn_
